@@ -66,6 +66,27 @@ func init() {
 		} else {
 			rep.Grounds = append(rep.Grounds, Ground{Name: "compile/fresh-module", OK: true, Text: "generated sources of the corpus and of the regenerated checked-in schemas type-check (go/packages, go/types)"})
 		}
+		// names colliding with protoreflect.Message methods: fields are renamed by rewriteMessageField, oneofs must be too
+		for _, nm := range []string{"type", "range", "descriptor"} {
+			fdp := newFile("corpus/names/oneof_"+nm+".proto", "corpus.names."+nm, freshModule+"/corpus/names_"+nm)
+			w := newMsg("W", "corpus.names."+nm+".W")
+			oi := w.oneofDecl(nm)
+			w.member(oi, "a", 1, descriptorpb.FieldDescriptorProto_TYPE_INT32, "")
+			w.member(oi, "b", 2, descriptorpb.FieldDescriptorProto_TYPE_STRING, "")
+			fdp.MessageType = append(fdp.MessageType, w.m)
+			res, err := generateFresh(map[string]*descriptorpb.FileDescriptorProto{fdp.GetName(): fdp}, []string{fdp.GetName()}, nil, "names-"+nm)
+			ok := err == nil && res != nil && res.errText == ""
+			detail := ""
+			if err != nil {
+				detail = err.Error()
+			} else if res != nil {
+				detail = res.errText
+			}
+			if len(detail) > 300 {
+				detail = detail[:300]
+			}
+			rep.Grounds = append(rep.Grounds, Ground{Name: "compile/oneof-named-like-a-reflection-method[" + nm + "]", OK: ok, Text: "a oneof whose Go name collides with a protoreflect.Message method (" + nm + ") still yields sources that compile", Detail: detail})
+		}
 		p, err := loadHand()
 		if err != nil {
 			return err
